@@ -100,6 +100,23 @@ Theorem C23_size_bound_list : forall t sh mx v p sz r,
 Proof. exact size_bound_list. Qed.
 Print Assumptions C23_size_bound_list.
 
+(* byte budget (maxSB): a long-form string announcing more than the budget is an error
+   whatever follows it, and inside a list — whatever size the list header itself claims —
+   the budget is still at most the caller's (the input length for UnmarshalFromBytes) *)
+Theorem C23_string_over_budget : forall sh mx tag r n r',
+  0xB8 <= tag <= 0xBF -> read_size (tag - 0xB7) r = Some (n, r') -> mx < n ->
+  read_bytes sh mx (tag :: r) = HErr.
+Proof. exact string_over_budget. Qed.
+Print Assumptions C23_string_over_budget.
+
+Theorem C23_size_bound_nested : forall t' sh mx v p sz r tag r1 n r2,
+  stringlike t' = true -> read_list sh v = HOk sz r ->
+  child_view sz r = tag :: r1 -> 0xB8 <= tag <= 0xBF ->
+  read_size (tag - 0xB7) r1 = Some (n, r2) -> mx < n ->
+  dec (TList t') sh mx v p = RErr.
+Proof. exact (size_bound_nested false). Qed.
+Print Assumptions C23_size_bound_nested.
+
 (* an accepted input leaves no un-closed child reader in the (pooled) decoder *)
 Theorem C23_decoder_left_clean : forall t bs x rest p,
   unmarshal t bs = ROk x (rest, p) -> p = 0.
